@@ -5,6 +5,8 @@
 package core
 
 import (
+	"bytes"
+	"os/exec"
 	"crypto/md5"
 	"encoding/json"
 	"fmt"
@@ -350,3 +352,20 @@ func (r *Rec) Drain() map[string]string {
 
 // Sum16 is the MD5 of b (used as a compact content fingerprint in observations).
 func Sum16(b []byte) [16]byte { return md5.Sum(b) }
+
+// Aux holds auxiliary sub-commands of the harness binary ("vcheck aux <name> args..."). A property uses them to
+// obtain a reference observation from a fresh process (FreshProcess), so that a differential oracle never takes its
+// reference from the very process state it is testing for.
+var Aux = map[string]func(args []string) int{}
+
+// FreshProcess runs "aux name args..." in a new process of this binary and returns its standard output.
+func FreshProcess(name string, args ...string) (string, error) {
+	cmd := exec.Command(os.Args[0], append([]string{"aux", name}, args...)...)
+	cmd.Env = os.Environ()
+	var out, errb bytes.Buffer
+	cmd.Stdout, cmd.Stderr = &out, &errb
+	if err := cmd.Run(); err != nil {
+		return "", fmt.Errorf("%v: %s", err, errb.String())
+	}
+	return out.String(), nil
+}
